@@ -3,11 +3,27 @@ Suite `evolve` (C14, layout half): a container holding a delimited type D, and t
 by a revision D' of the same extent whose field list extends (or is a prefix of) D's.  The property: the
 container's bit_length_set, extent and the offsets of all its fields are unchanged.
 Case: {"ty": C[D], "ty2": C[D'], "qs": [...]}; outcome {"res", "out", "out2"}.
+
+A case may say WHERE THE TYPES COME FROM ("src"; without it: the constructors, everything under version 1.0):
+  {"mode": "dsdl" | "ctor",             read from generated DSDL text by the front end / built through the constructors
+   "rev": [major, minor, minor'],       version numbers of D and D' (any major version, 0 included)
+   "vers": [[major, minor], ..],        version numbers of all other definitions (cycled)
+   "layout": "side" | "checkouts",      dsdl: D and D' side by side in one namespace (two minor versions of one name) or
+                                        two checkouts of the namespace that differ only in the file of D
+   "reader": "namespace" | "files",     dsdl: read_namespace / read_files
+   "svc": null | "request" | "response",the container is that section of a service type
+   "cpos": "last" | "first" | "mixed"}  dsdl: where the constants of a definition are written
+The property and the Specification's layout know nothing of version numbers, of the way a type object was obtained, or of
+the place of a definition in a service: the oracle is the same for every source.
 """
 from __future__ import annotations
 
+import json
 import random
+import shutil
+import tempfile
 import typing
+from pathlib import Path
 
 import common
 from suites import bls as B
@@ -78,8 +94,294 @@ def gen_case(rng, prop):
             continue
         qs = [q for q in q1["qs"] if q[0] not in ("intrinsic", "asserts")]
         # the queries were cost-checked on c; c2 has the same layout by the property, so the costs agree
-        return {"ty": c, "ty2": c2, "qs": qs}
+        case = {"ty": c, "ty2": c2, "qs": qs}
+        x = rng.random()
+        if x < 0.65:
+            src = gen_src(rng, "dsdl" if x < 0.45 else "ctor", c)
+            if src["mode"] == "dsdl" and (L.nested_arrays(L.strip(c)) or L.nested_arrays(L.strip(c2))):
+                src = gen_src(rng, "ctor", c)  # arrays of arrays cannot be spelled in DSDL
+            if src["mode"] == "ctor":
+                # (the `_offset_` of a service section is asked through text of its own, under version 1.0)
+                pass
+            case["src"] = src
+        return case
     raise RuntimeError("generator failed")
+
+
+MAJORS = [0, 0, 0, 1, 1, 2, 3, 7, 100, 255]
+
+
+def gen_version(rng, major=None):
+    major = rng.choice(MAJORS) if major is None else major
+    minor = rng.choice([0, 1, 1, 2, 3, 9, 200, 255])
+    if major == 0 and minor == 0:
+        minor = 1  # 0.0 is not a version
+    return [major, minor]
+
+
+def gen_src(rng, mode, c):
+    """Where the two containers come from: see the module docstring.  D and D' are revisions of one definition: same
+    name, same major version - ANY major version; the other definitions have versions of their own."""
+    major, m1 = gen_version(rng)
+    m2 = rng.choice([m for m in (m1 + 1, m1 - 1, m1 + 7, 255, 1, rng.randint(0, 255)) if 0 <= m <= 255 and m != m1 and (major, m) != (0, 0)])
+    same_major = rng.random() < 0.3
+    vers = [gen_version(rng, major if same_major else None) for _ in range(rng.randint(1, 3))]
+    top_composite = c[0] in ("struct", "union", "delim")
+    return {"mode": mode, "rev": [major, m1, m2], "vers": vers,
+            "layout": rng.choice(["side", "side", "checkouts"]), "reader": rng.choice(["namespace", "files"]),
+            "svc": rng.choice([None, None, "request", "response"]) if top_composite else None,
+            "cpos": rng.choice(["last", "first", "mixed"])}
+
+
+# ------------------------------------------------------------------------------- types from text / under version numbers
+
+
+def rev_path(a, b, path=()):
+    """Position (sequence of JSON indices) of the revised delimited definition: where the two containers have member
+    lists of different lengths.  None when the descriptions are equal."""
+    if a == b:
+        return None
+    k = a[0]
+    if k != b[0]:
+        return path
+    if k in ("farr", "varr"):
+        return rev_path(a[1], b[1], path + (1,))
+    if k == "delim":
+        if a[1][0] == b[1][0] and len(a[1][1]) != len(b[1][1]):
+            return path
+        return rev_path(a[1], b[1], path + (1,))
+    if k in ("struct", "union"):
+        if len(a[1]) != len(b[1]):
+            return path
+        for i, (x, y) in enumerate(zip(a[1], b[1])):
+            if x != y:
+                return rev_path(x, y, path + (1, i))
+    return path
+
+
+class _Emit:
+    """One side (container with D, or with D') as DSDL text: every composite is a definition file of its own; the
+    revised definition is ns.Rev.<major>.<minor of this side>, the others are ns.<prefix><n> under the versions of
+    src["vers"].  `files`: file name -> text."""
+
+    def __init__(self, src, side: int, rpath, prefix: str):
+        self.src, self.side, self.rpath, self.prefix = src, side, rpath, prefix
+        self.files: typing.Dict[str, str] = {}
+        self.n = 0
+
+    def rev_version(self):
+        r = self.src["rev"]
+        return [r[0], r[1] if (self.side == 0 or self.src["layout"] == "checkouts") else r[2]]
+
+    def fresh(self):
+        self.n += 1
+        vs = self.src["vers"]
+        return "%s%d" % (self.prefix, self.n), vs[self.n % len(vs)]
+
+    def type_text(self, t, path) -> str:
+        k = t[0]
+        if k in ("prim", "void"):
+            return L.dsdl_type_text(t, {}, None)
+        if k == "farr":
+            return "%s[%d]" % (self.type_text(t[1], path + (1,)), t[2])
+        if k == "varr":
+            return "%s[<=%d]" % (self.type_text(t[1], path + (1,)), t[2])
+        name, ver = ("Rev", self.rev_version()) if path == self.rpath else self.fresh()
+        self.files["%s.%d.%d.dsdl" % (name, ver[0], ver[1])] = self.def_text(t, path)
+        return "ns.%s.%d.%d" % (name, ver[0], ver[1])
+
+    def def_text(self, t, path, probe=None) -> str:
+        ext = None
+        if t[0] == "delim":
+            ext, t, path = t[2], t[1], path + (1,)
+        n = len(t[1])
+        nconst = t[2] if len(t) > 2 else 0
+        cpos = self.src.get("cpos", "last")
+        where = [0 if cpos == "first" else n if cpos == "last" else ci % (n + 1) for ci in range(nconst)]
+        lines = ["@union"] if t[0] == "union" else []
+        for i in range(n + 1):
+            lines += ["uint8 C%d = %d" % (ci, ci % 256) for ci in range(nconst) if where[ci] == i]
+            if probe == i:
+                lines.append("@print _offset_")
+            if i < n:
+                ft = self.type_text(t[1][i], path + (1, i))
+                lines.append(ft if t[1][i][0] == "void" else "%s f%d" % (ft, i))
+        lines.append("@sealed" if ext is None else "@extent %d" % ext)
+        return "\n".join(lines) + "\n"
+
+
+def _holder(t):
+    """Definitions are composites: an array on top is asked as the only field of a structure."""
+    return t if t[0] in ("struct", "union", "delim") else ["struct", [t]]
+
+
+def dsdl_impl(suite, pydsdl, case):
+    """Both containers read from DSDL text; the answers of both to the queries."""
+    src = case["src"]
+    tops = [_holder(case["ty"]), _holder(case["ty2"])]
+    rpath = rev_path(tops[0], tops[1])
+    checkouts = src["layout"] == "checkouts"
+    top_ver = src["vers"][0]
+    d = Path(tempfile.mkdtemp(prefix="verif_evolve_"))
+    try:
+        dirs = [d / "a" / "ns", d / "b" / "ns"] if checkouts else [d / "ns", d / "ns"]
+        tops_files = []
+        probes: typing.List[dict] = [{}, {}]
+        for side in (0, 1):
+            dirs[side].mkdir(parents=True, exist_ok=True)
+            suffix = "" if checkouts else "AB"[side]
+            em = _Emit(src, side, rpath, "T" if checkouts else "AB"[side])
+            text = em.def_text(tops[side], ())
+            filler = "uint8 x\n@sealed\n"
+            if src["svc"] == "request":
+                text = text + "---\n" + filler
+            elif src["svc"] == "response":
+                text = filler + "---\n" + text
+            top_name = ("Svc" if src["svc"] else "Top") + suffix
+            em.files["%s.%d.%d.dsdl" % (top_name, top_ver[0], top_ver[1])] = text
+            for qi, q in enumerate(case["qs"]):
+                if q[0] == "svc_intrinsic":
+                    # `_offset_` after q[1] fields of the container as the request of a service (response: q[2])
+                    em2 = _Emit(src, side, rpath, em.prefix + "q%dx" % qi)
+                    fn = "Q%d%s.%d.%d.dsdl" % (qi, suffix, top_ver[0], top_ver[1])
+                    em.files[fn] = em2.def_text(tops[side], (), probe=q[1]) + "---\n" + _Emit(src, side, None, em.prefix + "r%dx" % qi).def_text(q[2], (), probe=q[1])
+                    em.files.update(em2.files)
+                    probes[side][qi] = fn
+            for fn, tx in em.files.items():
+                (dirs[side] / fn).write_text(tx)
+            tops_files.append((top_name, dirs[side] / ("%s.%d.%d.dsdl" % (top_name, top_ver[0], top_ver[1]))))
+        prints: typing.List[typing.Dict[str, list]] = [{}, {}]
+        objs = []
+        read: dict = {}
+        for side in (0, 1):
+            key = str(dirs[side])
+            if key not in read:
+                got: typing.Dict[str, list] = {}
+
+                def handler(p, l, text, got=got):
+                    got.setdefault(Path(p).name, []).append(text)
+
+                if src["reader"] == "namespace":
+                    types = pydsdl.read_namespace(dirs[side], [], print_output_handler=handler)
+                else:
+                    wanted = sorted(p for p in dirs[side].iterdir() if p.name.startswith(("Top", "Svc", "Q")))
+                    direct, _ = pydsdl.read_files(wanted, [dirs[side]], [], print_output_handler=handler)
+                    types = direct
+                read[key] = (types, got)
+            types, got = read[key]
+            prints[side] = got
+            name = tops_files[side][0]
+            found = [t for t in types if t.short_name == name and [t.version.major, t.version.minor] == list(top_ver)]
+            if len(found) != 1:
+                raise RuntimeError("definition %s not among the types read" % name)
+            obj = found[0]
+            if src["svc"]:
+                obj = obj.request_type if src["svc"] == "request" else obj.response_type
+            if case["ty"][0] not in ("struct", "union", "delim"):
+                obj = obj.fields[0].data_type
+            objs.append(obj)
+        outs = []
+        for side in (0, 1):
+            out = []
+            for qi, q in enumerate(case["qs"]):
+                try:
+                    if q[0] == "svc_intrinsic":
+                        pr = prints[side].get(probes[side][qi], [])
+                        out.append([L.parse_set(x) for x in pr] if len(pr) == 2 else "prints:%r" % (pr,))
+                    else:
+                        out.append(suite.ask(pydsdl, objs[side], None, q, {}))
+                except Exception as ex:
+                    out.append("exc:%s" % type(ex).__name__)
+            outs.append(out)
+        return outs
+    finally:
+        shutil.rmtree(d, ignore_errors=True)
+
+
+def ctor_impl(suite, pydsdl, case):
+    """Both containers built through the constructors, under the version numbers of the case."""
+    src = case["src"]
+    tops = [case["ty"], case["ty2"]]
+    rpath = rev_path(tops[0], tops[1])
+    CM = pydsdl.PrimitiveType.CastMode
+    outs = []
+    for side in (0, 1):
+        counter = [0]
+
+        def build(t, path, top=False):
+            k = t[0]
+            if k in ("prim", "void"):
+                return L.build_impl(pydsdl, t, None)
+            if k == "farr":
+                return pydsdl.FixedLengthArrayType(build(t[1], path + (1,)), t[2])
+            if k == "varr":
+                return pydsdl.VariableLengthArrayType(build(t[1], path + (1,)), t[2])
+            ext = None
+            dpath = path
+            if k == "delim":
+                ext, t, path = t[2], t[1], path + (1,)
+            attrs = []
+            for i, f in enumerate(t[1]):
+                ft = build(f, path + (1, i))
+                attrs.append(pydsdl.PaddingField(ft) if f[0] == "void" else pydsdl.Field(ft, "f%d" % i))
+            for ci in range(t[2] if len(t) > 2 else 0):
+                attrs.append(pydsdl.Constant(pydsdl.UnsignedIntegerType(8, CM.SATURATED), "C%d" % ci, pydsdl.Rational(ci % 256)))
+            counter[0] += 1
+            if dpath == rpath:
+                name, ver = "Rev", [src["rev"][0], src["rev"][1 + side]]
+            else:
+                name, ver = "T%d" % counter[0], src["vers"][counter[0] % len(src["vers"])]
+            svc = top and src["svc"] is not None
+            if svc:
+                name, ver = "Svc." + src["svc"].capitalize(), src["vers"][0]
+            cls = pydsdl.StructureType if t[0] == "struct" else pydsdl.UnionType
+            path_ = Path("/nonexistent/ns/%s.%d.%d.dsdl" % (name.split(".")[0], ver[0], ver[1]))
+            r = cls(name="ns." + name, version=pydsdl.Version(ver[0], ver[1]), attributes=attrs, deprecated=False,
+                    fixed_port_id=None, source_file_path=path_, has_parent_service=svc)
+            if ext is not None:
+                r = pydsdl.DelimitedType(r, ext)
+            if svc:
+                other = pydsdl.StructureType(name="ns.Svc." + ("Response" if src["svc"] == "request" else "Request"),
+                                             version=pydsdl.Version(ver[0], ver[1]), attributes=[], deprecated=False, fixed_port_id=None,
+                                             source_file_path=path_, has_parent_service=True)
+                s = pydsdl.ServiceType(r, other, None) if src["svc"] == "request" else pydsdl.ServiceType(other, r, None)
+                r = s.request_type if src["svc"] == "request" else s.response_type
+            return r
+
+        obj = build(tops[side], (), top=True)
+        out = []
+        for q in case["qs"]:
+            try:
+                out.append(suite.ask(pydsdl, obj, tops[side], q, {}))
+            except Exception as ex:
+                out.append("exc:%s" % type(ex).__name__)
+        outs.append(out)
+    return outs
+
+
+
+def nesting(a, b) -> typing.List[str]:
+    """How the revised definition is nested, outermost first (feature strings)."""
+    out = []
+    rp = rev_path(a, b)
+    t = a
+    i = 0
+    rp = rp or ()
+    while i < len(rp):
+        k = t[0]
+        if k in ("farr", "varr"):
+            out.append("array-element")
+            t = t[1]
+            i += 1
+        elif k == "delim":
+            t = t[1]
+            i += 1
+            out.append("member-of-delimited")
+        else:
+            out.append("field" if k == "struct" else "union-variant")
+            t = t[1][rp[i + 1]]
+            i += 2
+    return sorted(set(out))
 
 
 class EvolveSuite(common.Suite):
@@ -93,13 +395,31 @@ class EvolveSuite(common.Suite):
         d = ["delim", ["struct", [u8]], 64]
         d2 = ["delim", ["struct", [u8, ["prim", 16, "uintsat"], ["varr", u8, 3]]], 64]
         qs = [["min"], ["max"], ["extent"], ["mod", 8], ["mod", 32], ["offsets", [0], [8, 32]], ["offsets", [3, 11], [8]], ["expand"]]
-        return [
+        base = [
             {"ty": ["struct", [["prim", 3, "uintsat"], ["farr", d, 2], ["prim", 7, "uintsat"]]],
              "ty2": ["struct", [["prim", 3, "uintsat"], ["farr", d2, 2], ["prim", 7, "uintsat"]]], "qs": qs},
             {"ty": ["union", [u8, d]], "ty2": ["union", [u8, d2]], "qs": qs},
         ]
+        out = list(base)
+        # the same pairs from every source: text / constructors, side by side / two checkouts, several major versions,
+        # message / service section
+        for major in (0, 1, 2):
+            for mode, layout, reader, svc in (("dsdl", "side", "namespace", None), ("dsdl", "checkouts", "files", "response"), ("ctor", "side", "namespace", "request")):
+                for b in base:
+                    out.append(dict(b, src={"mode": mode, "rev": [major, 1, 2], "vers": [[major, 3], [1, 0]], "layout": layout, "reader": reader,
+                                            "svc": svc, "cpos": "mixed"}))
+        return out
 
     def run_impl(self, case):
+        if "src" in case:
+            pydsdl = common.import_pydsdl()
+            try:
+                outs = (dsdl_impl if case["src"]["mode"] == "dsdl" else ctor_impl)(L.SUITE, pydsdl, case)
+            except pydsdl.FrontendError as ex:
+                return {"res": "rejected", "soft_cls": type(ex).__name__, "soft_msg": str(ex)[:300]}
+            except Exception as ex:
+                return {"res": "exc:" + type(ex).__name__, "soft_msg": str(ex)[:300]}
+            return {"res": "ok", "out": outs[0], "out2": outs[1]}
         a = L.SUITE.run_impl({"ty": case["ty"], "qs": case["qs"]})
         b = L.SUITE.run_impl({"ty": case["ty2"], "qs": case["qs"]})
         if a.get("res") != "ok" or b.get("res") != "ok":
@@ -111,7 +431,7 @@ class EvolveSuite(common.Suite):
 
     def oracle(self, case, impl, prop):
         if impl.get("res") != "ok":
-            return "valid container / revision pair not accepted: %s" % impl.get("res")
+            return "valid container / revision pair not accepted: %s%s" % (impl.get("res"), " (%s: %s)" % (impl.get("soft_cls"), impl.get("soft_msg")) if impl.get("soft_msg") else "")
         for q, a, b in zip(case["qs"], impl["out"], impl["out2"]):
             if a != b:
                 return "query %s differs between the container and its revision: %s vs %s" % (q, B._short(a), B._short(b))
@@ -125,9 +445,20 @@ class EvolveSuite(common.Suite):
 
     def shrink(self, case):
         qs = case["qs"]
+        extra = {k: v for k, v in case.items() if k == "src"}
         for i in range(len(qs)):
             if len(qs) > 1:
-                yield {"ty": case["ty"], "ty2": case["ty2"], "qs": qs[:i] + qs[i + 1:]}
+                yield dict({"ty": case["ty"], "ty2": case["ty2"], "qs": qs[:i] + qs[i + 1:]}, **extra)
+        src = case.get("src")
+        if src is not None:
+            yield {"ty": case["ty"], "ty2": case["ty2"], "qs": qs}
+            for key, simple in (("svc", None), ("layout", "side"), ("reader", "namespace"), ("cpos", "last"), ("vers", [[1, 0]])):
+                if src.get(key) != simple:
+                    yield dict(case, src=dict(src, **{key: simple}))
+            r = src["rev"]
+            for r2 in ([1, 0, 1], [r[0], 1, 2]):
+                if r != r2:
+                    yield dict(case, src=dict(src, rev=r2))
 
     def features(self, case, impl):
         yield "top:" + case["ty"][0]
@@ -136,6 +467,18 @@ class EvolveSuite(common.Suite):
         for q in case["qs"]:
             yield "q:" + q[0]
         yield "depth:%d" % L.tdepth(case["ty"])
+        src = case.get("src")
+        yield "source:" + ("constructors/version-1.0" if src is None else "dsdl-text" if src["mode"] == "dsdl" else "constructors/versioned")
+        for w in nesting(case["ty"], case["ty2"]):
+            yield "revised-type-nested-as:" + w
+        if src is not None:
+            m = src["rev"][0]
+            yield "revised-type-major-version:%s" % (m if m < 2 else "2+")
+            yield "other-definitions-major-version-0:%s" % any(v[0] == 0 for v in src["vers"])
+            yield "container:" + ("service-" + src["svc"] if src["svc"] else "message")
+            if src["mode"] == "dsdl":
+                yield "dsdl:%s/read_%s" % ("two-minor-versions-side-by-side" if src["layout"] == "side" else "two-checkouts", src["reader"])
+                yield "dsdl:constants-" + src["cpos"]
 
 
 SUITE = EvolveSuite()
